@@ -47,7 +47,7 @@ func c11Specs(tier string, seed int) []c11Spec {
 		}
 	}
 	for conc := 1; conc <= 3; conc++ {
-		out = append(out, c11Spec{Kind: "e4", Batch: []string{"Fsoil", "A", "Fyear", "B", "Ftill", "C"}, Conc: conc}, c11Spec{Kind: "e4", Batch: []string{"Fsoil", "Ffield", "Ftex"}, Conc: conc})
+		out = append(out, c11Spec{Kind: "e4", Batch: []string{"Fsoil", "A", "Fyear", "B", "Ftill", "C"}, Conc: conc}, c11Spec{Kind: "e4", Batch: []string{"Fsoil", "Ffield", "Ftex"}, Conc: conc}, c11Spec{Kind: "e4", Batch: []string{"A", "Ag", "Fsoil", "B"}, Conc: conc})
 	}
 	// E3: two valid lines and one failing line, every position, concurrency 1..3, all interleavings
 	bound := 1
@@ -65,7 +65,7 @@ func c11Specs(tier string, seed int) []c11Spec {
 			}
 		}
 	}
-	out = append(out, c11Spec{Kind: "e3", Batch: []string{"Fsoil", "A", "Fyear", "B"}, Conc: 2, Bound: bound - 1}, c11Spec{Kind: "e3", Batch: []string{"Fargs", "Fsoil", "A"}, Conc: 2, Bound: bound})
+	out = append(out, c11Spec{Kind: "e3", Batch: []string{"Fsoil", "A", "Fyear", "B"}, Conc: 2, Bound: bound - 1}, c11Spec{Kind: "e3", Batch: []string{"Fargs", "Fsoil", "A"}, Conc: 2, Bound: bound}, c11Spec{Kind: "e3", Batch: []string{"A", "Fsoil", "Ag"}, Conc: 1, Bound: bound}, c11Spec{Kind: "e3", Batch: []string{"Ag", "A", "Fsoil"}, Conc: 2, Bound: bound})
 	if tier == "thorough" {
 		var sharded []c11Spec
 		for _, s := range out {
@@ -97,9 +97,9 @@ func init() {
 		Assumptions: []string{"valid lines: two plots sharing all project files, one project sharing the parameter folder", "termination deadline 120 s per process (more than 1000 x the normal duration)", "scheduler assumptions as for C03"},
 		Bound: func(t string) string {
 			if t == "quick" {
-				return "9 failing-line classes x 4 positions x 4 concurrency levels (half of the grid) + 6 multi-failure batches on the real binary; 3 classes x 3 positions x 3 concurrency levels at preemption bound 1 under the scheduler; 181 latitudes x 4 dates"
+				return "9 failing-line classes x 4 positions x 4 concurrency levels (half of the grid) + 9 mixed batches on the real binary; 3 classes x 3 positions x 3 concurrency levels at preemption bound 1 under the scheduler; 181 latitudes x 4 dates"
 			}
-			return "9 classes x 4 positions x 4 concurrency levels + 6 multi-failure batches on the real binary; 9 classes x 3 positions x 3 concurrency levels at preemption bound 3 under the scheduler; 181 latitudes x 4 dates"
+			return "9 classes x 4 positions x 4 concurrency levels + 9 mixed batches on the real binary; 9 classes x 3 positions x 3 concurrency levels at preemption bound 3 under the scheduler; 181 latitudes x 4 dates"
 		},
 		Budget: func(t string) time.Duration {
 			if t == "quick" {
